@@ -44,7 +44,7 @@ def gen_mib(rng, table=False):
     return mib, rng.choice(bases)
 
 
-def agent_replies(mib, base, kind, maxrep, cap, v1, overshoot=False, rel_rng=None):
+def agent_replies(mib, base, kind, maxrep, cap, v1, overshoot=False, rel_rng=None, rel_p=0.5):
     """RFC 3416 agent: the sequence of replies to the requests a correct walker sends.
     Computed lazily from the request OID actually received: returns a function req_arcs -> rep.
     overshoot: an agent that answers with `cap` rows however few were asked for (the property quantifies over any
@@ -81,7 +81,7 @@ def agent_replies(mib, base, kind, maxrep, cap, v1, overshoot=False, rel_rng=Non
                     out.append((e[0], e[1][0]))
                     cur = e[0]
             # (rel_rng: an agent that compresses the names of a reply with RELATIVE-OID elements)
-            return walks.relativize(rel_rng, out) if rel_rng is not None else out
+            return walks.relativize(rel_rng, out, rel_p) if rel_rng is not None else out
         return []
     return reply
 
